@@ -346,7 +346,7 @@ def i_SHA(ins, fmap):
     count = fmap(src2)
     if count._is_cst:
         n = count.value
-        result = x<<n if n>=0 else op(OP_ASR,x,-n)
+        result = x<<n if n>=0 else oper(OP_ASR,x,cst(-n,x.size))
         carry = bit0
         if n>0:
             carry = x[32-n:32]!=0
@@ -359,8 +359,8 @@ def i_SHA(ins, fmap):
     fmap[C] = carry
     fmap[SV] = top(1)
     advanced_overflow = result[31:32]^result[30:31]
-    fmap[AV] = tst(cond,advanced_overflow,fmap(AV))
-    fmap[SAV] = tst(cond&advanced_overflow,bit1,fmap(SAV))
+    fmap[AV] = advanced_overflow
+    fmap[SAV] = tst(advanced_overflow,bit1,fmap(SAV))
 
 @__npc
 def i_SHAS(ins, fmap):
@@ -369,7 +369,7 @@ def i_SHAS(ins, fmap):
     count = fmap(src2)
     if count._is_cst:
         n = count.value
-        result = x<<n if n>=0 else op(OP_ASR,x,-n)
+        result = x<<n if n>=0 else oper(OP_ASR,x,cst(-n,x.size))
         carry = bit0
         if n>0:
             carry = x[32-n:32]!=0
@@ -382,8 +382,8 @@ def i_SHAS(ins, fmap):
     fmap[C] = carry
     fmap[SV] = top(1)
     advanced_overflow = result[31:32]^result[30:31]
-    fmap[AV] = tst(cond,advanced_overflow,fmap(AV))
-    fmap[SAV] = tst(cond&advanced_overflow,bit1,fmap(SAV))
+    fmap[AV] = advanced_overflow
+    fmap[SAV] = tst(advanced_overflow,bit1,fmap(SAV))
 
 @__npc
 def i_AND(ins, fmap):
